@@ -72,10 +72,14 @@ pub fn break_equal(last_string: &str) -> bool {
 pub fn break_concat(last_string: &str) -> bool {
     if let Some('.') = last_string.chars().last() {
         true
-    } else if let Some(first_char) = last_string.chars().next() {
-        first_char == '.' || first_char.is_ascii_digit()
     } else {
-        false
+        // a negative number is written with a leading `-`: `-2.5..` would be a malformed number
+        let numeral = last_string.strip_prefix('-').unwrap_or(last_string);
+        if let Some(first_char) = numeral.chars().next() {
+            first_char == '.' || first_char.is_ascii_digit()
+        } else {
+            false
+        }
     }
 }
 
